@@ -153,7 +153,7 @@ func (e *c18Explorer) explore(root c18Root, p []int, n int) {
 func TestVerif_C18_Retries(t *testing.T) {
 	r := vk.Start(t, "c18_retries", "exploration", "C18")
 	defer r.Finish()
-	depth := r.Pick(3, 4)
+	depth := r.Pick(3, 5)
 	r.Rule("C18", fmt.Sprintf("one history = (retry policy maxAttempts x WithMaxCallAttempts x WithDisableRetry x MaxRetryRPCBufferSize x retryThrottling) x client script {unary, client-stream Send x2+CloseSend, bidi Send/Recv/Send, CloseSend first, CloseSend after the end, Header()} x server timing (acts after 0/1/2 further client ops or only when the client cannot proceed) x per-attempt server script; scripts form a prefix tree over the %d behaviours %v, depth <= %d, padded with trailers-only UNAVAILABLE, a prefix being extended exactly when the run made an attempt beyond it (so every distinguishable script within the depth is run once); non-trivial = at least one attempt failed, i.e. at least one retry decision was judged; each history is a distinct input", c18NB, c18BNames, depth))
 	r.Assume("C18", "reference model c18Model (gRFC A6 as restated by the property): transparent retry for the first attempt if refused / above a GOAWAY id (for a later unprocessed attempt both a transparent retry - if none was used yet - and a policy-driven continuation are admitted, the statement and A6 leave this open); REFUSED_STREAM, GOAWAY and connection loss end an attempt with UNAVAILABLE (gRPC HTTP/2 mapping); the replay buffer counts as exceeded when the payload bytes of the SendMsg calls that completed before the attempt failed exceed the limit (sizes are chosen so that counting the 5-byte prefix or not makes no difference)")
 	r.Assume("C18", "attempts that never reach the wire (stream creation on a closing transport) are invisible to the raw server and not judged; testing/synctest quiescence and virtual time are trusted; the raw peer's frame log (x/net/http2 framer + hpack) is trusted")
